@@ -284,7 +284,7 @@ impl Hist {
         }
     }
 
-    fn ownership(&self, c: &str) -> String {
+    pub fn ownership(&self, c: &str) -> String {
         let a = self.w.a(c);
         let o: Result<Ownership<String>, _> = match c {
             "pm" => self.w.app.wrap().query_wasm_smart(a, &pmm::QueryMsg::Ownership {}),
